@@ -366,6 +366,14 @@ def invoke(c, op, ver, r_args):
                             GROUP_MEMBER_FRESH)
         return c.locate(maximum_items=r_args.get('max'))
     if op == 'check':
+        if v == 1:
+            return c.check(uid=uid, usage_limits_count=7,
+                           cryptographic_usage_mask=[
+                               enums.CryptographicUsageMask.ENCRYPT,
+                               enums.CryptographicUsageMask.DECRYPT],
+                           lease_time=3600)
+        if v == 2:
+            return c.check(uid=uid, lease_time=0)
         return c.check(uid=uid)
     if op == 'get':
         if v == 1:
@@ -394,6 +402,10 @@ def invoke(c, op, ver, r_args):
     if op == 'activate':
         return c.activate(uid)
     if op == 'revoke':
+        if v == 1:
+            return c.revoke(enums.RevocationReasonCode(r_args['code']), uid,
+                            revocation_message=r_args.get('msg'),
+                            compromise_occurrence_date=1500000000)
         return c.revoke(enums.RevocationReasonCode(r_args['code']), uid,
                         revocation_message=r_args.get('msg'))
     if op == 'destroy':
